@@ -9,7 +9,7 @@ SALT_CHARS = "abcdefghijklmnopqrstuvwxyzABCDEFGHIJKLMNOPQRSTUVWXYZ0123456789"
 FILE_NAMES = ["a.cfg", "b.cfg", "r1 core.conf", "rtr-é.txt", "x.y.z", "CONFIG", "ñandú.cfg", "c d e.txt", "0",
               "edge_fw.cfg", "sw01.txt", "Ünï.conf"]
 HIDDEN_NAMES = [".hidden", ".DS_Store", ".x.cfg"]
-DIR_NAMES = ["sub", "site a", "düs", ".git", "deep", "d2", "pop-1"]
+DIR_NAMES = ["sub", "site a", "düs", ".git", "deep", "d2", "pop-1", "out", "deeper", "res dir", "in", "nested"]
 
 
 def gen_salt(r, alnum_only=False):
@@ -154,7 +154,7 @@ def add_words(r, o, n=None, forbidden=""):
     return o["words"]
 
 
-def gen_secrets(r, n, classes=None, words=()):
+def gen_secrets(r, n, classes=None, words=(), variant_rate=0.12):
     """n secret identities with an `a` value and a same-shape `b` value (paired world)."""
     classes = classes or ["text", "text", "num", "hex", "t7", "md5", "sha", "j9p", "j9p", "j9p-num", "j9p-hex", "c9", "rwc"]
     out = {}
@@ -189,11 +189,16 @@ def gen_secrets(r, n, classes=None, words=()):
         for attempt in range(50):
             a = G.gen_secret(r, cls)
             b = G.gen_secret(r, cls, length=len(a), like=a)
-            if attempt == 0 and out and r.random() < 0.12:
+            if attempt == 0 and out and r.random() < variant_rate:
                 # a different secret that differs from an earlier one only in letter case
-                prev = out[r.choice(sorted(out))]
+                same = [k for k in sorted(out) if out[k]["cls"] == cls]
+                prev = out[r.choice(same)] if same else out[r.choice(sorted(out))]
                 if prev["cls"] == cls and cls in ("text", "hex", "t7", "j9p", "j9p-hex"):
                     a2, b2 = prev["a"].swapcase(), prev["b"].swapcase()
+                    if cls == "text" and r.random() < 0.5:
+                        # ... or only in a leading backslash (never a trailing one: `\"` would read as an escaped quote)
+                        bs = r.choice(["\\", "\\\\"])
+                        a2, b2 = bs + prev["a"], bs + prev["b"]
                     if a2 != prev["a"] and b2 != prev["b"]:
                         a, b = a2, b2
             want = {"j9p": "text", "aws": "text", "j9p-num": "num", "j9p-hex": "hex", "c9": "j9"}.get(cls, cls)
